@@ -30,13 +30,18 @@ theorem C06_gen_complete : Gen.extractionFailures = [] := by decide
 theorem C06_machine_never_written : Gen.concMachineWrites = [] := by decide
 
 /-- the package-level variables, and every function that stores to one -/
-theorem C06_globals : Gen.concGlobals = ["dlog", "mu", "pluginsLoaded", "testedFunctionTable", "xpathFunctionTable"] := by decide
+theorem C06_globals : Gen.concGlobals =
+    ["dlog", "mu", "pluginsLoaded", "testedFunctionTable", "testedMu", "xpathFunctionTable"] := by decide
 
 theorem C06_global_writes : Gen.concGlobalWrites =
-    ["RegisterCustomFunctions: pluginsLoaded", "RegisterCustomFunctions: xpathFunctionTable", "SetDebugLogger: dlog",
-     "init: dlog", "markFunctionAsTested: testedFunctionTable"] := by decide
+    ["SetDebugLogger: dlog", "init: dlog", "markFunctionAsTested: testedFunctionTable",
+     "registerCustomFunctions: pluginsLoaded", "registerCustomFunctions: xpathFunctionTable"] := by decide
 
-/-- the function table is read, and lazily filled, with the package mutex held -/
+/-- the function table is read, lazily filled and (after the repair) extended by a plugin registration with the
+    package mutex held; the table of tested functions is written, by runs in validation mode, under a mutex of its
+    own (after the repair); the one remaining unguarded store is the debug logger -/
 theorem C06_lookup_locked : "LookupXpathFunction" ∈ Gen.concLockedFuncs := by decide
+theorem C06_register_locked : "RegisterCustomFunctions" ∈ Gen.concLockedFuncs := by decide
+theorem C06_tested_locked : "markFunctionAsTested: testedMu" ∈ Gen.concLockedFuncs := by decide
 
 end YV.Props.C06
